@@ -1970,8 +1970,10 @@ func (w *World) ghostMods(fn *ssa.Function) []string {
 							}
 						}
 						if len(ct.Touches) > 0 {
-							for g := range w.Specs.Ghosts {
-								gm["ghost:"+g] = true
+							for g, gv := range w.Specs.Ghosts {
+								if gv.Sort == "IntArray" || gv.Sort == "IntSet" {
+									gm["ghost:"+g] = true
+								}
 							}
 						}
 					}
